@@ -179,6 +179,8 @@ class _Return(Exception):
 
 
 class StrEval:
+    _split_depth = 0
+
     """Evaluator.  `bindings` maps dotted expression text (e.g. 'self._chart_type') to a constant
     used to fold conditions and dict lookups (chart-type specialisation)."""
 
@@ -243,7 +245,37 @@ class StrEval:
     # -- statements ------------------------------------------------------------------------------
     def _block(self, stmts, fc, env, rets):
         """Execute statements abstractly; returns False if the block always terminates (return/raise)."""
-        for st in stmts:
+        for i, st in enumerate(stmts):
+            if isinstance(st, ast.If) and i + 1 < len(stmts) and self._split_depth < 4 and _binding_only(st) \
+                    and self._fold(st.test, fc, env) not in (True, False):
+                # arms that bind the same name to different non-string values (a template *and* the function that supplies its
+                # fields, chosen together): the rest of the block is evaluated once per arm, so the pairing is kept
+                both = _bound_names(st.body) & _bound_names(st.orelse)
+                mark = (len(self.unknown), len(self.parsed))
+                e1, e2 = dict(env), dict(env)
+                c1 = self._block(st.body, fc, e1, [])
+                c2 = self._block(st.orelse, fc, e2, [])
+                conflict = c1 and c2 and any(
+                    not (isinstance(e1.get(k), S) and isinstance(e2.get(k), S)) and not (
+                        e1.get(k) is not None and e2.get(k) is not None and (e1[k] is e2[k] or _same(e1[k], e2[k]))) for k in both)
+                if conflict:
+                    del self.unknown[mark[0]:]
+                    del self.parsed[mark[1]:]
+                    e1, e2 = dict(env), dict(env)
+                    self._split_depth += 1
+                    try:
+                        d1 = self._block(list(st.body) + list(stmts[i + 1:]), fc, e1, rets)
+                        d2 = self._block(list(st.orelse) + list(stmts[i + 1:]), fc, e2, rets)
+                    finally:
+                        self._split_depth -= 1
+                    if d1 and d2:
+                        self._merge(env, e1, e2)
+                    elif d1 or d2:
+                        env.clear()
+                        env.update(e1 if d1 else e2)
+                    return d1 or d2
+                del self.unknown[mark[0]:]
+                del self.parsed[mark[1]:]
             if not self._stmt(st, fc, env, rets):
                 return False
         return True
@@ -586,7 +618,7 @@ class StrEval:
             for k in e.keys:
                 kv = self._const(k, fc, env) if k is not None else Unknown("splat")
                 keys.append(kv)
-            return ("dict", keys, [self.eval(v, fc, env) for v in e.values], e)
+            return ("dict", keys, [self.eval(v, fc, env) for v in e.values], e, fc)
         if isinstance(e, (ast.List,)):
             return ("list", [self.eval(x, fc, env) for x in e.elts])
         if isinstance(e, ast.BoolOp) and isinstance(e.op, ast.Or):
@@ -728,7 +760,7 @@ class StrEval:
                 if isinstance(dv, tuple) and dv and dv[0] == "dict":
                     for kk, vv, nn in zip(dv[1], dv[2], dv[3].values):
                         if isinstance(kk, str):
-                            kw[kk] = (vv, nn)
+                            kw[kk] = (vv, nn, dv[4] if len(dv) > 4 else fc)   # rendered where the mapping was written
                         else:
                             self.unknown.append(("format(**{non-literal key})", fc.fn, call.lineno))
                 else:
@@ -764,8 +796,8 @@ class StrEval:
                     else:
                         bad[0] = True
                 elif name in kw:
-                    v, n = kw[name]
-                    out.append(self._render_value(v, n, fc, spec))
+                    v, n = kw[name][0], kw[name][1]
+                    out.append(self._render_value(v, n, kw[name][2] if len(kw[name]) > 2 else fc, spec))
                 else:
                     bad[0] = True
             out.append(Lit(s[p:]))
@@ -987,6 +1019,18 @@ class StrEval:
         if vals:
             return alt(vals)
         return ("opaque", callnode)
+
+
+def _binding_only(st):
+    """an if / elif / else whose arms only bind local names"""
+    def ok(b):
+        return all((isinstance(x, ast.Assign) and all(isinstance(t, (ast.Name, ast.Tuple)) for t in x.targets)) or isinstance(x, ast.Pass)
+                   or (isinstance(x, ast.If) and _binding_only(x)) for x in b)
+    return bool(st.orelse) and ok(st.body) and ok(st.orelse)
+
+
+def _bound_names(stmts):
+    return {n.id for x in stmts for n in ast.walk(x) if isinstance(n, ast.Name) and isinstance(n.ctx, ast.Store)}
 
 
 class _LoopExit(Exception):
